@@ -349,6 +349,11 @@ func (e *Exec) equals(t types.Type, x, y Value) *Term {
 		if x.Sort.K == SFP {
 			return e.B.FpCmp(OFpEq, x, yt)
 		}
+		if x.Op == ORatio || yt.Op == ORatio {
+			xn, xd := e.B.NumDen(x)
+			yn, yd := e.B.NumDen(yt)
+			return e.B.Eq(e.B.RBin(ORMul, xn, yd), e.B.RBin(ORMul, yn, xd))
+		}
 		return e.B.Eq(x, yt)
 	case StringV:
 		ys := y.(StringV)
